@@ -20,7 +20,7 @@ def classify(case, kind):
 TRUSTED = [
     "specification side (C01/Spec.v): my transcription of GraphQL CollectFields / DoesFragmentTypeApply / @skip / @include / CompleteValue as the decider `den`; Execute_spec = den with one global assignment, Ref_local = den re-choosing the local variables per selection set",
     "TypeScript reading (Ts/TsDen.v has_type_b): exact object types; __SelectionSet<Orig,Obj,Others> = fields of Obj whose key is a key of Orig, with Obj's own optional markers, plus Others (DESIGN section 3); no TypeScript compiler is available to cross-check it",
-    "the schema declaration file is represented by C01/Spec.v schema_env, built in Coq from the resolved schema document (objects as exact records incl. __typename, interfaces/unions as unions of their objects, enums as literal unions, built-in scalars by the default mapping, a custom scalar X as an opaque atom type); that this is what SchemaTypePrinter emits is C10's subject",
+    "the schema declaration file is the IMPLEMENTATION's: SchemaTypePrinter's text for the same schema (default options + a scalar configuration giving every custom scalar X the operation-output type Scalar_X, by entry, by entry + different @nitrogql_ts_type directive, or by directive only), its __OperationOutput namespace read once per schema by C10/Parse.v (Corr.out_decls / text_env); the theorems are stated over C01/Spec.v schema_env (the same namespace built from the schema document), which C10 ties to the text",
     "the enumerators (exec_enum: one runtime type per abstract position, null/non-null, list lengths 0/1/2, every enum member, all assignments of up to 6 boolean variables; 'each choice' coverage, not the full product) only propose candidates; every candidate is re-checked by exec_b / has_type_b before it counts",
 ]
 ASSUME = [
